@@ -6,6 +6,12 @@
 // (panic recovered), Iter (full and with a consumer that declines), String,
 // Canonical().String(), Holds over the probes, the print/parse round trips, and
 // Contains/Equal both ways.
+//
+// Iterator values are used the way a caller may use a plain function: besides a fresh
+// s.Iter() per walk, ONE iterator value taken at the start of the observation is walked
+// again and again according to a schedule (full walks, walks cut short, walks started from
+// inside the consumer of another walk of the same value or of a new one), part of it before
+// and part of it after the other methods were called on the scope.
 package main
 
 import (
@@ -232,6 +238,104 @@ func (e *expr) coq() string {
 
 // ---------- observation ----------
 
+// wspec is one walk of the schedule. Lim < 0: the consumer never declines; otherwise it
+// declines its (Lim+1)-th item. Fresh: a new s.Iter() instead of the iterator value kept
+// since the start of the observation. Nest: while handling item number NestAt the consumer
+// walks (Same: the function value it is being called from, else a new s.Iter()) with limit
+// NestLim (< 0: to the end).
+type wspec struct {
+	Fresh   bool `json:"fresh,omitempty"`
+	Lim     int  `json:"lim"`
+	Nest    bool `json:"nest,omitempty"`
+	NestAt  int  `json:"nest_at,omitempty"`
+	Same    bool `json:"nest_same,omitempty"`
+	NestLim int  `json:"nest_lim,omitempty"`
+}
+
+func cLim(n int) string {
+	if n < 0 {
+		return "None"
+	}
+	return fmt.Sprintf("(Some %d%%nat)", n)
+}
+
+func (w wspec) coq() string {
+	nest := "None"
+	if w.Nest {
+		nest = fmt.Sprintf("(Some (%d%%nat, %s, %s))", w.NestAt, hx.Bool(w.Same), cLim(w.NestLim))
+	}
+	return fmt.Sprintf("(Build_wspec %s %s %s)", hx.Bool(w.Fresh), cLim(w.Lim), nest)
+}
+
+func cSched(l []wspec) string {
+	items := make([]string, len(l))
+	for i, w := range l {
+		items[i] = w.coq()
+	}
+	return hx.List(items)
+}
+
+// wobs: what one walk handed to its consumer and to the nested consumer.
+type wobs struct {
+	Out []triple `json:"out"`
+	In  []triple `json:"in,omitempty"`
+}
+
+// the Coq term states a walk relative to the first full walk: length of the longest common
+// prefix + whatever follows it (lossless; Coq puts it together again and does the judging)
+func cWalkPart(ref, got []triple) string {
+	n := 0
+	for n < len(ref) && n < len(got) && ref[n] == got[n] {
+		n++
+	}
+	return fmt.Sprintf("%d%%nat %s", n, cTriples(got[n:]))
+}
+
+func cWalks(ref []triple, ws []wobs) string {
+	items := make([]string, len(ws))
+	for i, w := range ws {
+		items[i] = "(Build_wobs " + cWalkPart(ref, w.Out) + " " + cWalkPart(ref, w.In) + ")"
+	}
+	return hx.List(items)
+}
+
+type iterFn = func(func(ociauth.ResourceScope) bool)
+
+// collector that declines its (lim+1)-th item (never, when lim < 0)
+func collect(dst *[]triple, lim int, each func(idx int)) func(ociauth.ResourceScope) bool {
+	return func(r ociauth.ResourceScope) bool {
+		idx := len(*dst)
+		*dst = append(*dst, fromRS(r))
+		if each != nil {
+			each(idx)
+		}
+		return lim < 0 || idx < lim
+	}
+}
+
+func runWalk(s ociauth.Scope, shared iterFn, w wspec) wobs {
+	var o wobs
+	it := shared
+	if w.Fresh {
+		it = s.Iter()
+	}
+	var each func(int)
+	if w.Nest {
+		each = func(idx int) {
+			if idx != w.NestAt {
+				return
+			}
+			inner := it
+			if !w.Same {
+				inner = s.Iter()
+			}
+			inner(collect(&o.In, w.NestLim, nil))
+		}
+	}
+	it(collect(&o.Out, w.Lim, each))
+	return o
+}
+
 type sobs struct {
 	Unl    bool     `json:"unlimited"`
 	Empty  bool     `json:"empty"`
@@ -244,16 +348,28 @@ type sobs struct {
 	RT     bool     `json:"reparse_equal"`
 	CRT    bool     `json:"canonical_reparse_equal"`
 	CEq    bool     `json:"canonical_equal"`
+	Walks  []wobs   `json:"walks"`
 	Panics []string `json:"panics,omitempty"`
 }
 
-func observe(s ociauth.Scope, probes []triple, stop int) sobs {
+func observe(s ociauth.Scope, probes []triple, stop int, sched []wspec) sobs {
 	var o sobs
 	guard := func(name string, f func()) {
 		if p, v := hx.Recover(f); p {
 			o.Panics = append(o.Panics, name+": "+v)
 		}
 	}
+	// the one iterator value every non-fresh walk of the schedule calls
+	var shared iterFn
+	guard("Iter()", func() { shared = s.Iter() })
+	o.Walks = make([]wobs, len(sched))
+	walks := func(from, to int) {
+		for i := from; i < to; i++ {
+			i := i
+			guard(fmt.Sprintf("walk %d", i), func() { o.Walks[i] = runWalk(s, shared, sched[i]) })
+		}
+	}
+	half := (len(sched) + 1) / 2
 	guard("IsUnlimited", func() { o.Unl = s.IsUnlimited() })
 	guard("IsEmpty", func() { o.Empty = s.IsEmpty() })
 	if p, _ := hx.Recover(func() { n := s.Len(); o.Len = &n }); p {
@@ -269,6 +385,7 @@ func observe(s ociauth.Scope, probes []triple, stop int) sobs {
 			return idx < stop
 		})
 	})
+	walks(0, half)
 	guard("String", func() { o.Str = bstr(s.String()) })
 	guard("Canonical.String", func() { o.CStr = bstr(s.Canonical().String()) })
 	mask := new(big.Int)
@@ -283,6 +400,7 @@ func observe(s ociauth.Scope, probes []triple, stop int) sobs {
 	guard("reparse", func() { o.RT = ociauth.ParseScope(s.String()).Equal(s) })
 	guard("creparse", func() { o.CRT = ociauth.ParseScope(s.Canonical().String()).Equal(s) })
 	guard("cequal", func() { o.CEq = s.Canonical().Equal(s) && s.Equal(s.Canonical()) })
+	walks(half, len(sched))
 	return o
 }
 
@@ -291,9 +409,10 @@ func (o sobs) coq() string {
 	if o.Len != nil {
 		l = fmt.Sprintf("(Some %d%%N)", *o.Len)
 	}
-	return fmt.Sprintf("(Build_sobs %s %s %s %s %s %s %s %s%%N %s %s %s)",
+	return fmt.Sprintf("(Build_sobs %s %s %s %s %s %s %s %s%%N %s %s %s %s)",
 		hx.Bool(o.Unl), hx.Bool(o.Empty), l, cTriples(o.Iter), cTriples(o.Stop),
-		cb(string(o.Str)), cb(string(o.CStr)), o.Holds, hx.Bool(o.RT), hx.Bool(o.CRT), hx.Bool(o.CEq))
+		cb(string(o.Str)), cb(string(o.CStr)), o.Holds, hx.Bool(o.RT), hx.Bool(o.CRT), hx.Bool(o.CEq),
+		cWalks(o.Iter, o.Walks))
 }
 
 type input struct {
@@ -301,6 +420,7 @@ type input struct {
 	B      *expr    `json:"b"`
 	Probes []triple `json:"probes"` // in addition to the 80-triple universe
 	Stop   int      `json:"stop"`
+	Sched  []wspec  `json:"sched"` // absent (corpus files written before it existed): defaultSched(Stop)
 }
 
 type observed struct {
@@ -308,6 +428,56 @@ type observed struct {
 	AB, BA, Eq, Qe bool
 	UA             bool
 	Panics         []string `json:",omitempty"`
+}
+
+// ---------- walk schedules ----------
+
+// the schedule of the enumerated inputs: the kept iterator value is cut short, walked to the
+// end with a walk of itself nested inside, a new iterator is cut short, and after everything
+// else the kept one is walked to the end once more
+func defaultSched(stop int) []wspec {
+	return []wspec{
+		{Lim: stop},
+		{Lim: -1, Nest: true, NestAt: stop, Same: true, NestLim: -1},
+		{Fresh: true, Lim: stop + 1, Nest: true, NestAt: 0, Same: false, NestLim: stop},
+		{Lim: -1},
+	}
+}
+
+// a random schedule of 2..5 walks. It starts with a walk of the kept iterator value and ends
+// with a walk of it to the end, so that what an earlier walk (complete, cut short, nested)
+// leaves behind in the iterator value or in the scope shows in a later one.
+func genSched(rnd *rand.Rand) []wspec {
+	lim := func() int {
+		switch rnd.Intn(5) {
+		case 0, 1:
+			return -1
+		case 2:
+			return rnd.Intn(3)
+		}
+		return rnd.Intn(13)
+	}
+	one := func() wspec {
+		w := wspec{Fresh: rnd.Intn(4) == 0, Lim: lim()}
+		if rnd.Intn(3) == 0 {
+			w.Nest, w.Same, w.NestLim = true, rnd.Intn(3) != 0, lim()
+			if w.Lim > 0 && rnd.Intn(4) != 0 {
+				w.NestAt = rnd.Intn(w.Lim + 1)
+			} else {
+				w.NestAt = rnd.Intn(6)
+			}
+		}
+		return w
+	}
+	first := one()
+	first.Fresh = false
+	sched := []wspec{first}
+	for k := rnd.Intn(4); k > 0; k-- {
+		sched = append(sched, one())
+	}
+	last := one()
+	last.Fresh, last.Lim = false, -1
+	return append(sched, last)
 }
 
 // ---------- universes ----------
@@ -577,6 +747,9 @@ func main() {
 	rnd := cfg.Rand()
 
 	add := func(in input, origin string) {
+		if in.Sched == nil {
+			in.Sched = defaultSched(in.Stop)
+		}
 		probes := append(append([]triple{}, u80...), in.Probes...)
 		var ob observed
 		var a, b, u ociauth.Scope
@@ -588,9 +761,9 @@ func main() {
 		guard("build a", func() { a = in.A.eval() })
 		guard("build b", func() { b = in.B.eval() })
 		guard("union", func() { u = a.Union(b) })
-		ob.A = observe(a, probes, in.Stop)
-		ob.B = observe(b, probes, in.Stop)
-		ob.U = observe(u, probes, in.Stop)
+		ob.A = observe(a, probes, in.Stop, in.Sched)
+		ob.B = observe(b, probes, in.Stop, in.Sched)
+		ob.U = observe(u, probes, in.Stop, in.Sched)
 		guard("Contains", func() { ob.AB = a.Contains(b); ob.BA = b.Contains(a) })
 		guard("Equal", func() { ob.Eq = a.Equal(b); ob.Qe = b.Equal(a) })
 		guard("Union.Equal", func() { ob.UA = u.Equal(a) })
@@ -599,8 +772,8 @@ func main() {
 		if len(in.Probes) > 0 {
 			pr = "(U80 ++ " + cTriples(in.Probes) + ")"
 		}
-		coq := fmt.Sprintf("Build_case %s %s %s %d%%nat %s %s %s %s %s %s %s %s %s",
-			in.A.coq(), in.B.coq(), pr, in.Stop, ob.A.coq(), ob.B.coq(), ob.U.coq(),
+		coq := fmt.Sprintf("Build_case %s %s %s %d%%nat %s %s %s %s %s %s %s %s %s %s",
+			in.A.coq(), in.B.coq(), pr, in.Stop, cSched(in.Sched), ob.A.coq(), ob.B.coq(), ob.U.coq(),
 			hx.Bool(ob.AB), hx.Bool(ob.BA), hx.Bool(ob.Eq), hx.Bool(ob.Qe), hx.Bool(ob.UA), hx.Bool(len(ob.Panics) > 0))
 		class := origin + "/" + in.A.K + "," + in.B.K
 		if !out.Add(hx.Case{Coq: "(" + coq + ")", Desc: map[string]any{"input": in, "observed": ob, "origin": origin},
@@ -641,6 +814,36 @@ func main() {
 		feat("a_roundtrip_ok", ob.A.CRT)
 		feat("len_panics", ob.A.Len == nil || ob.B.Len == nil)
 		feat("stop_cut_short", len(ob.A.Stop) < len(ob.A.Iter))
+		out.Count(fmt.Sprintf("walks:%d", len(in.Sched)))
+		// what the schedule does to the kept iterator value of a, b or the union before its last walk
+		for _, o := range []sobs{ob.A, ob.B, ob.U} {
+			mixed := has(o, isOther) && (has(o, isCat) || has(o, isRepoKnown))
+			var full, cut, nestSame, nestNew, fresh bool
+			for i, w := range in.Sched {
+				if i == len(in.Sched)-1 {
+					break
+				}
+				got := o.Walks[i]
+				fresh = fresh || w.Fresh
+				if !w.Fresh && len(got.Out) == len(o.Iter) && len(o.Iter) > 0 {
+					full = true
+				}
+				if !w.Fresh && len(got.Out) < len(o.Iter) {
+					cut = true
+				}
+				if w.Nest && len(got.In) > 0 {
+					nestSame = nestSame || w.Same
+					nestNew = nestNew || !w.Same
+				}
+			}
+			feat("walk_again_after_full_walk", full)
+			feat("walk_again_after_full_walk(known_and_other_mixed)", full && mixed)
+			feat("walk_again_after_cut_short", cut)
+			feat("walk_again_after_cut_short(known_and_other_mixed)", cut && mixed)
+			feat("walk_nested_in_same_iterator", nestSame)
+			feat("walk_nested_new_iterator", nestNew)
+			feat("walk_fresh_between", fresh)
+		}
 		feat("panic", len(ob.Panics) > 0)
 	}
 
@@ -723,6 +926,7 @@ func main() {
 			in.A, in.B = in.B, in.A
 		}
 		in.Probes = nearMisses(rnd, append(append([]triple{}, l...), m...), 40)
+		in.Sched = genSched(rnd)
 		add(in, "random-"+rel)
 	}
 	// 5. scope strings: duplicates, permutations, grouping, odd white space, malformed fields
@@ -758,6 +962,7 @@ func main() {
 		}
 		in := input{A: eParse(text), B: b, Stop: rnd.Intn(5)}
 		in.Probes = nearMisses(rnd, append(in.A.triples(), in.B.triples()...), 40)
+		in.Sched = genSched(rnd)
 		add(in, origin)
 	}
 	for _, f := range oddFields {
@@ -799,6 +1004,7 @@ func main() {
 		a, b := genExpr(1+rnd.Intn(3)), genExpr(rnd.Intn(3))
 		in := input{A: a, B: b, Stop: rnd.Intn(4)}
 		in.Probes = nearMisses(rnd, append(a.triples(), b.triples()...), 30)
+		in.Sched = genSched(rnd)
 		add(in, "expr")
 	}
 
